@@ -3,6 +3,7 @@ package main
 import (
 	"fmt"
 	"go/ast"
+	"go/constant"
 	"go/token"
 	"go/types"
 	"regexp"
@@ -107,14 +108,10 @@ func init() {
 		c.Check(c.ge().ensures(dec, guardCmp("CRC matches", `hash/crc32\.Checksum\(.*\)`, "==", `.*Uint32\(.*\)`), 2), dk+" ensures the CRC matched", w.pos(dec.Pos()), "guarded", "Decode can return a record without a CRC match")
 		// a clean EOF only before the first byte of a frame; anything else is a corruption error
 		eofRet := 0
-		for _, b := range dec.Blocks {
-			ret, ok := b.Instrs[len(b.Instrs)-1].(*ssa.Return)
-			if !ok || len(ret.Results) != 2 {
-				continue
-			}
-			if strings.Contains(w.expr(ret.Results[1]), "dec.rd.Read(") {
+		for _, lr := range leafErrReturns(dec) {
+			if strings.Contains(w.expr(lr.err), "dec.rd.Read(") {
 				eofRet++
-				c.guards(dec, ret, dk+" :: pass EOF through", 0, guardRe("error is io.EOF", `^true\(errors\.Is\(dec\.rd\.Read\(.*\)#1, io\.EOF\)\)$`))
+				c.guards(dec, lr.ret, dk+" :: pass EOF through", 0, guardRe("error is io.EOF", `^true\(errors\.Is\(dec\.rd\.Read\(.*\)#1, io\.EOF\)\)$`))
 			}
 		}
 		c.Check(eofRet == 1, dk+" :: EOF is only reported at a frame boundary", w.pos(dec.Pos()), "single EOF pass-through (first read)", fmt.Sprintf("%d raw read-error returns", eofRet))
@@ -209,7 +206,7 @@ func init() {
 		wf, rf := c.fn("libs/autofile", "filePathForIndex"), c.fn("libs/autofile", "Group.readGroupInfo")
 		if wf != nil && rf != nil {
 			fmts := w.stringLitArgs(wf, "fmt.Sprintf")
-			pats := w.stringLitArgs(rf, "regexp.MustCompile")
+			pats := w.regexpPatternsUsed(rf)
 			if c.Check(len(fmts) == 1 && len(pats) == 1, "libs/autofile rotated-name format and pattern found", w.pos(wf.Pos()), "format "+strings.Join(fmts, ",")+" pattern "+strings.Join(pats, ","), "cannot find the format / pattern literals") {
 				rx, err := regexp.Compile(pats[0])
 				ok := err == nil
@@ -294,8 +291,9 @@ func init() {
 			if isC && !found && isNilConst(ret.Results[2]) && b.Comment != "for.done" {
 				// early not-found
 				c.guards(f, ret, fk+" :: give up early", 0,
-					guardCmp("a real marker (height > 0) was seen in a newer file", `phi\(.*lastHeightFound.*\)|phi\(.*EndHeightMessage.*\)`, ">", "0"),
-					guardCmp("that marker is below the requested height", `phi\(.*\)`, "<", "height"),
+					// the running "last marker seen": a loop phi, or a slot handed to a per-file scan helper
+					guardCmp("a real marker (height > 0) was seen in a newer file", `phi\(.*lastHeightFound.*\)|phi\(.*EndHeightMessage.*\)|&lastHeightFound`, ">", "0"),
+					guardCmp("that marker is below the requested height", `phi\(.*\)|&lastHeightFound`, "<", "height"),
 					guardCmp("the file was read to its end", `.*\.Decode\(\)#1`, "==", `io\.EOF`))
 			}
 		}
@@ -358,26 +356,25 @@ func init() {
 		}
 		fk := funcKey(f)
 		n := 0
-		for _, r := range returnsOf(f) {
-			ret := r.(*ssa.Return)
-			e := w.expr(ret.Results[1])
+		leaves := leafErrReturns(f)
+		for _, lr := range leaves {
+			e := w.expr(lr.err)
 			if !regexp.MustCompile(`^dec\.rd\.Read\(.*\)#1$`).MatchString(e) {
 				continue
 			}
 			n++
-			c.guards(f, ret, fk+" :: hand back the reader's end-of-log error", 0,
+			c.guards(f, lr.ret, fk+" :: hand back the reader's end-of-log error", 0,
 				guardCmp("no byte of a next record was read", `dec\.rd\.Read\(.*\)#0`, "<=", "0"))
 		}
 		c.Check(n == 1, fk+" :: one clean end-of-log exit", w.pos(f.Pos()), "1", fmt.Sprintf("%d raw-error returns", n))
-		// every other failure of the three reads is a corruption error
-		for _, r := range returnsOf(f) {
-			ret := r.(*ssa.Return)
-			if isNilConst(ret.Results[1]) || !isNilConst(ret.Results[0]) {
-				continue // the success return hands back the (nil) error of the last conversion
+		// every other failure the decoder reports itself is a corruption error
+		for _, lr := range leaves {
+			mi, isMI := lr.err.(*ssa.MakeInterface)
+			if !isMI {
+				continue // the reader's own error (above), or the result of the final conversion
 			}
-			e := w.expr(ret.Results[1])
-			ok := regexp.MustCompile(`^dec\.rd\.Read\(.*\)#1$`).MatchString(e) || e == "&complit" || strings.Contains(e, "DataCorruptionError")
-			c.Check(ok, fk+" :: failures other than end-of-log are corruption errors", w.ipos(ret), e, "returns "+e)
+			nt := derefNamed(mi.X.Type())
+			c.Check(nt != nil && nt.Obj().Name() == "DataCorruptionError", fk+" :: failures other than end-of-log are corruption errors", w.ipos(lr.ret), "DataCorruptionError", "returns an error of type "+mi.X.Type().String())
 		}
 	})
 }
@@ -441,5 +438,104 @@ func sortedTypeKeys(m map[string]types.Type) []string {
 		out = append(out, k)
 	}
 	sort.Strings(out)
+	return out
+}
+
+// regexpPatternsUsed lists the literal patterns of the regular expressions f matches with: compiled in f or
+// in a helper introduced later, or compiled once into a package-level variable that f (or such a helper)
+// reads.
+func (w *World) regexpPatternsUsed(f *ssa.Function) []string {
+	lit := func(call ssa.CallInstruction) (string, bool) {
+		d, ok := describeCallee(call)
+		if !ok || d.Pkg != "regexp" || (d.Name != "MustCompile" && d.Name != "Compile") || len(call.Common().Args) != 1 {
+			return "", false
+		}
+		cst, ok := call.Common().Args[0].(*ssa.Const)
+		if !ok || cst.Value == nil || cst.Value.Kind() != constant.String {
+			return "", false
+		}
+		return constant.StringVal(cst.Value), true
+	}
+	// package-level variables initialised with a compiled literal
+	globals := map[*ssa.Global]string{}
+	if f.Pkg != nil {
+		if init := f.Pkg.Func("init"); init != nil {
+			for _, b := range init.Blocks {
+				for _, in := range b.Instrs {
+					st, ok := in.(*ssa.Store)
+					if !ok {
+						continue
+					}
+					g, ok := st.Addr.(*ssa.Global)
+					if !ok {
+						continue
+					}
+					if call := valueCall(st.Val); call != nil {
+						if p, ok := lit(call); ok {
+							globals[g] = p
+						}
+					}
+				}
+			}
+		}
+	}
+	seen := map[string]bool{}
+	var out []string
+	add := func(p string) {
+		if !seen[p] {
+			seen[p] = true
+			out = append(out, p)
+		}
+	}
+	for _, di := range w.deepInstrs(f, 2) {
+		if call, ok := di.in.(ssa.CallInstruction); ok {
+			if p, ok := lit(call); ok {
+				add(p)
+			}
+		}
+		if u, ok := di.in.(*ssa.UnOp); ok && u.Op == token.MUL {
+			if g, ok := u.X.(*ssa.Global); ok {
+				if p, ok := globals[g]; ok {
+					add(p)
+				}
+			}
+		}
+	}
+	return out
+}
+
+// leafErrReturns lists the returns of f and of the helpers carved out of it (transparent bodies) at which
+// an error value originates: returns that merely hand on the result of such a helper are skipped.
+type leafReturn struct {
+	fn  *ssa.Function
+	ret *ssa.Return
+	err ssa.Value
+}
+
+func leafErrReturns(f *ssa.Function) []leafReturn {
+	fns := append([]*ssa.Function{f}, transparentBodies(f)...)
+	isInner := map[*ssa.Function]bool{}
+	for _, h := range fns[1:] {
+		isInner[h] = true
+	}
+	var out []leafReturn
+	for _, g := range fns {
+		for _, r := range returnsOf(g) {
+			ret := r.(*ssa.Return)
+			if len(ret.Results) == 0 {
+				continue
+			}
+			e := ret.Results[len(ret.Results)-1]
+			if !types.Identical(e.Type(), errorType) {
+				continue
+			}
+			if call := valueCall(e); call != nil {
+				if h := staticCallee(call); h != nil && isInner[h] {
+					continue // pass-through of a carved-out helper's result
+				}
+			}
+			out = append(out, leafReturn{g, ret, e})
+		}
+	}
 	return out
 }
